@@ -106,6 +106,25 @@ def c11_3(ctx):
                     and 'group(3)' in unparse(d):
                 ok = True
             detail = f'{unparse(n)}; text = {unparse(d)}'
+    # where a quoted string ends: at the first closing quote that is not escaped (so that `'a', 'b'` is two items, not one string)
+    import re._parser as _P
+    import re._constants as _sre
+    pd = ctx.fold.class_const(DL, 'PATTERN_DATA_DIRECTIVE')
+    body = None
+    for op_, av_ in _P.parse(pd.pattern, pd.flags):
+        if op_ == _sre.BRANCH:
+            for alt in av_[1]:
+                for o2, a2 in alt:
+                    if o2 == _sre.SUBPATTERN and a2[0] == 3:
+                        body = a2[3]
+    lazy_or_excluding = False
+    if body and len(body) == 1 and body[0][0] in (_sre.MAX_REPEAT, _sre.MIN_REPEAT):
+        rep_op, (lo_, hi_, inner) = body[0]
+        any_char = any(o3 == _sre.ANY for o3, _ in inner) or any(o3 == _sre.BRANCH and any(x[0][0] == _sre.ANY for x in a3[1] if x) for o3, a3 in inner)
+        lazy_or_excluding = rep_op == _sre.MIN_REPEAT or not any_char
+    ctx.check(lazy_or_excluding, 'string:ends-at-first-closing-quote', f'{ctx.repo.cls(DL).module.relpath}:11',
+              'the text of a quoted string stops at the first unescaped closing quote',
+              'the string body is a greedy `.`-repeat: it runs to the LAST quote on the line, so `.byte \'a\', \'b\'` is the six-character string a\', \'b')
     ctx.check(ok, 'string:one-byte-per-character', fac.site(sdef[0]) if sdef else fac.site(),
               'a quoted string yields the ordinal of each character of its escape-processed text, one value per character', detail)
     ext = [c for c in ast.walk(fac.node) if isinstance(c, ast.Call) and isinstance(c.func, ast.Attribute) and c.func.attr in ('extend', 'append')
